@@ -23,7 +23,7 @@ func init() {
 	register(&Prop{
 		ID:    "C03",
 		Level: "exploration",
-		Rule: "case = (server capability set, IMAP4rev2 enabled or not, sequence of <=12 client calls whose results an emitting stub Session writes through the server's writer API from generated data: SELECT data, STATUS items, LIST entries with attributes/extended items/STATUS pairs, FETCH messages with UID, FLAGS, INTERNALDATE, RFC822.SIZE, ENVELOPE (all address lists, NIL variants), BODY/BODYSTRUCTURE trees (single, multipart, message/rfc822, nesting <=4, with and without extension data), BODY[section] and BINARY[section] literals of 0..8k arbitrary bytes, BINARY.SIZE; SEARCH and ESEARCH results; APPENDUID; COPYUID for COPY and MOVE with expunges; NAMESPACE; EXPUNGE numbers), client consumption mode (Collect, manual Next with chunked literal reads), network segmentation and schedule. " +
+		Rule: "case = (server capability set, IMAP4rev2 enabled or not, sequence of <=12 client calls whose results an emitting stub Session writes through the server's writer API from generated data: SELECT data, STATUS items, LIST entries (in 1 run of 3 with generated mailbox names: controls, DEL, '&', non-ASCII, INBOX in every case, long names) with attributes/extended items/STATUS pairs, FETCH messages with UID, FLAGS, INTERNALDATE, RFC822.SIZE, ENVELOPE (all address lists, NIL variants), BODY/BODYSTRUCTURE trees (single, multipart, message/rfc822, nesting <=4, with and without extension data), BODY[section] and BINARY[section] literals of 0..8k arbitrary bytes, BINARY.SIZE; SEARCH and ESEARCH results; APPENDUID; COPYUID for COPY and MOVE with expunges; NAMESPACE; EXPUNGE numbers), client consumption mode (Collect, manual Next with chunked literal reads), network segmentation and schedule. " +
 			"Oracle: what Wait/Collect/Next deliver equals what the stub wrote, up to the normalisations of DESIGN.md Appendix E. Non-trivial: at least one result was compared. Distinct: distinct event-log hashes.",
 		Components:   "real: imapserver.Conn and its writers, imapclient.Client and its parsers, internal/imapwire (woven); stub: emitting Session, network, clock, scheduler",
 		Assumptions:  []string{"generated data stay inside the domain the wire syntax can carry (seconds-precision times, addresses with non-empty mailbox and host, msg-ids without angle brackets, no RFC 2047 look-alikes in raw ASCII text, static non-empty number sets)"},
@@ -238,6 +238,12 @@ func genC03Op(t *simrt.Tape, selected bool) c03op {
 	}
 	o := c03op{Kind: kinds[t.Choose(len(kinds))], Mode: t.Choose(3)}
 	mb := []string{"INBOX", "Archive/2024", "Entwürfe", "a&b", "sp ace", "quo\"te"}
+	if t.Choose(3) == 2 {
+		// names the backend may hold: controls, DEL, '&', non-ASCII, every case of INBOX, long names
+		for i := range mb {
+			mb[i] = genMailboxName(t)
+		}
+	}
 	switch o.Kind {
 	case "Select":
 		o.Select = &imap.SelectData{Flags: genFlagList(t), PermanentFlags: append(genFlagList(t), imap.FlagWildcard)[t.Choose(2):], NumMessages: uint32(t.Choose(5000)), UIDNext: imap.UID(1 + t.Choose(100000)), UIDValidity: uint32(1 + t.Choose(100000))}
@@ -811,13 +817,13 @@ func statusNorm(d *imap.StatusData) interface{} {
 	if d == nil {
 		return nil
 	}
+	c := *d
+	c.Mailbox = normMailbox(c.Mailbox) // INBOX is case-insensitive on the wire
 	// "APPENDLIMIT NIL" (no limit) is delivered by the client as the largest uint32: same meaning
-	if d.AppendLimit != nil && *d.AppendLimit == ^uint32(0) {
-		c := *d
+	if c.AppendLimit != nil && *c.AppendLimit == ^uint32(0) {
 		c.AppendLimit = nil
-		return &c
 	}
-	return d
+	return &c
 }
 
 // c03Do issues one call and compares its result; false stops the scenario (connection-level failure).
